@@ -261,12 +261,68 @@ def walk(crate):
     return modules, files
 
 
+ITEM_RE = re.compile(r"(?m)^(?:pub(?:\([a-z]+\))?\s+)?(?:(?:async|const|unsafe)\s+)*(const|static|fn|struct|enum|type|trait)\s+([A-Za-z_]\w*)")
+USE_RE = re.compile(r"(?m)^[ \t]*pub(?:\([a-z]+\))?\s+use\s+((?:\w+::)*)(\*|\{[^}]*\}|\w+)\s*;")
+
+
+def disj(a, b):
+    if a is None:
+        return b
+    if a == ("tt",) or b == ("tt",):
+        return ("tt",)
+    return a if a == b else ("or", a, b)
+
+
+def exports_of(modules, files):
+    """module path -> {item name: guard under which `crate::<module>::<name>` resolves} (definitions in the module's file plus
+    `pub use` re-exports, each under the cfg guard in force where it is written; alternatives are OR-ed)"""
+    by_mod = {mp: (src, ranges) for rel, mp, g, src, ranges in files}
+    cache = {}
+
+    def ex(mp, depth=0):
+        if mp in cache:
+            return cache[mp]
+        cache[mp] = {}
+        out = {}
+        if mp not in by_mod or depth > 6:
+            return out
+        src, ranges = by_mod[mp]
+        for m in ITEM_RE.finditer(src):
+            out[m.group(2)] = disj(out.get(m.group(2)), guard_at(ranges, m.start()))
+        for m in USE_RE.finditer(src):
+            g = guard_at(ranges, m.start())
+            segs = [x for x in m.group(1).split("::") if x]
+            if segs and segs[0] == "crate":
+                base = tuple(segs[1:])
+            elif segs and segs[0] == "super":
+                base = mp[:-1] + tuple(segs[1:])
+            elif segs and segs[0] == "self":
+                base = mp + tuple(segs[1:])
+            else:
+                base = mp + tuple(segs)
+            what = m.group(2)
+            if what == "*":
+                if base in modules:
+                    for n, gn in ex(base, depth + 1).items():
+                        out[n] = disj(out.get(n), conj(conj(g, modules[base]), gn))
+            else:
+                names = re.findall(r"\w+", what) if what.startswith("{") else [what]
+                src_ex = ex(base, depth + 1) if base in modules else {}
+                for n in names:
+                    if n in src_ex:
+                        out[n] = disj(out.get(n), conj(conj(g, modules[base]), src_ex[n]))
+        cache[mp] = out
+        return out
+    return {mp: ex(mp) for mp in modules}
+
+
 def extract(crate_name):
     crate = Crate(crate_name)
     for f in list(crate.feats) + sorted(crate.optional):
         if f != "default":
             crate.fid(f)
     modules, files = walk(crate)
+    exports = exports_of(modules, files)
     deps = {d.replace("-", "_"): d for d in crate.optional}
     refs = {}           # (site formula, target formula) -> example
     nrefs = 0
@@ -281,6 +337,10 @@ def extract(crate_name):
             if k == 0:
                 continue
             target = modules[segs[:k]]
+            item = segs[k] if k < len(segs) else None
+            if item is not None and item in exports.get(segs[:k], {}):
+                # `crate::module::ITEM`: the item itself (or the `pub use` that brings it into the module) can be guarded
+                target = conj(target, exports[segs[:k]][item])
             if target == ("tt",):
                 continue
             site = conj(fguard, guard_at(ranges, m.start()))
